@@ -1,8 +1,9 @@
 package main
 
 import (
-	"go/token"
 	"fmt"
+	"go/token"
+	"go/types"
 	"sort"
 	"strings"
 
@@ -17,8 +18,8 @@ func init() {
 		Run: runC15,
 		Explanation: "Decides ONE structural clause of 'encoding with any accepted decode parameters, then decoding, returns the original bytes': for every filter type of pkg/filter that has both an Encode and a DecodeLength method, the set of decode-parameter keys (constant indices into the filter's parms map) read in code reachable from DecodeLength inside pkg/filter is contained in the set read in code reachable from Encode. A parameter that only the decoder interprets (Predictor, Colors, BitsPerComponent, Columns, EarlyChange) transforms the data on one side only, so Decode(Encode(x)) cannot be x for the parameter sets in which it matters. One table entry: LZWDecode reads Predictor only to reject values > 1 (such parameter sets are not accepted). " +
 			"The pinned tree violated this for FlateDecode — Encode ignored the predictor parameters, a TODO said so — repaired in /repo (2218e670). " +
-			"(R2) in StreamDict.Encode and decodeLength the parameter map handed to filter.NewFilter for a pipeline stage is made in that iteration (no value carried round the loop). NOT decided: that the encoder applies the inverse transformation correctly (value-level), the codecs themselves, StreamDict pipelines.",
-		Rules:       []string{"C15.R1 siblings: decode parameters read by a filter's decoder are read by its encoder", "C15.R2 flow: every pipeline stage is built with parameters made from its own /DecodeParms in the same iteration"},
+			"(R2) in StreamDict.Encode and decodeLength the parameter map handed to filter.NewFilter for a pipeline stage is made in that iteration (no value carried round the loop). (R3) both sides of the TIFF predictor address the neighbouring sample through the Colors value (index dependence on SSA), so the distance is the same function of the parameters on both sides; (R4) every loop of the run-length encoder that advances the scan position over the source goes on only under a linear bound position - start <= k with k+1 <= 128, the largest run a length byte can express (129 would be written as 128 = end of data). NOT decided: that the encoder applies the inverse transformation correctly (value-level), the codecs themselves, StreamDict pipelines.",
+		Rules:       []string{"C15.R1 siblings: decode parameters read by a filter's decoder are read by its encoder", "C15.R2 flow: every pipeline stage is built with parameters made from its own /DecodeParms in the same iteration", "C15.R3 dependence: the sample the TIFF differencing subtracts (encoder) or adds (decoder) is addressed through Colors", "C15.R4 range: a run-length run is cut at 128 bytes before its length byte is computed"},
 		Assumptions: []string{"decode parameters are read through constant keys of the parms map"},
 		Level:       "other",
 		Technique:   "sibling cross-check of Encode / DecodeLength over the call graph restricted to pkg/filter",
@@ -74,6 +75,10 @@ func runC15(c *Ctx) {
 	r.MinInst["C15.R1"] = 6
 	r.MinInst["C15.R2"] = 2
 	checkPerStageParameters(c)
+	r.MinInst["C15.R3"] = 2
+	checkTIFFDistance(c)
+	r.MinInst["C15.R4"] = 2
+	checkRunLengthRunBound(c)
 	cg := c.CG()
 	enc := map[string]*ssa.Function{}
 	dec := map[string]*ssa.Function{}
@@ -206,5 +211,144 @@ func checkPerStageParameters(c *Ctx) {
 	}
 	if n == 0 {
 		r.Bad("C15.R2", "pkg/pdfcpu/types", "anchor", "", "UNRESOLVED-ANCHOR: no filter.NewFilter call inside a pipeline loop")
+	}
+}
+
+// ---------------- C15.R3 (round 3 seed C15-D): the TIFF differencing distance is Colors on both sides ----------------
+
+// indexTaint closes a taint set under "an element addressed with a tainted index is tainted".
+func indexTaint(c *Ctx, seeds []ssa.Value, fns []*ssa.Function) map[ssa.Value]bool {
+	t := taintFrom(c, seeds)
+	for {
+		var more []ssa.Value
+		for _, fn := range fns {
+			eachInstr(fn, func(_ *ssa.BasicBlock, _ int, i ssa.Instruction) {
+				switch x := i.(type) {
+				case *ssa.IndexAddr:
+					if t[x.Index] && !t[x] {
+						more = append(more, x)
+					}
+				case *ssa.Index:
+					if t[x.Index] && !t[x] {
+						more = append(more, x)
+					}
+				case *ssa.Lookup:
+					if t[x.Index] && !t[x] {
+						more = append(more, x)
+					}
+				}
+			})
+		}
+		if len(more) == 0 {
+			return t
+		}
+		for v := range t {
+			more = append(more, v)
+		}
+		t = taintFrom(c, more)
+	}
+}
+
+// checkTIFFDistance: TIFF predictor 2 stores each sample as the difference to the sample of the same colour
+// component one pixel to the left, that is Colors samples back. The decoder adds row[k-Colors]; the encoder has to
+// subtract the sample at the same distance. The rule: in the functions that do the byte arithmetic on either side
+// (reachable in pkg/filter from flate.encodePreProcess, and applyHorDiff), the second operand of every byte
+// addition/subtraction depends on the Colors value (through an index or directly); an operand that does not is a
+// fixed distance, right for Colors = 1 only.
+func checkTIFFDistance(c *Ctx) {
+	p, r := c.P, c.R
+	cg := c.CG()
+	isByte := func(t types.Type) bool {
+		b, ok := t.Underlying().(*types.Basic)
+		return ok && b.Kind() == types.Uint8
+	}
+	inFilter := func(fn *ssa.Function) bool {
+		return fn.Pkg != nil && fn.Pkg.Pkg.Path() == modPath+"/pkg/filter"
+	}
+	// ---- encoder
+	encFn := p.Func("pkg/filter.(flate).encodePreProcess")
+	if encFn == nil {
+		r.Bad("C15.R3", "pkg/filter.(flate).encodePreProcess", "anchor", "", "UNRESOLVED-ANCHOR: the encoder's predictor step was not found")
+	} else {
+		var fns []*ssa.Function
+		seen := map[*ssa.Function]bool{}
+		var visit func(fn *ssa.Function)
+		visit = func(fn *ssa.Function) {
+			if seen[fn] || !inFilter(fn) {
+				return
+			}
+			seen[fn] = true
+			fns = append(fns, fn)
+			for _, o := range cg.Out[fn] {
+				visit(o)
+			}
+		}
+		visit(encFn)
+		// the Colors value: first result of the parameters() call
+		var seeds []ssa.Value
+		eachInstr(encFn, func(_ *ssa.BasicBlock, _ int, i ssa.Instruction) {
+			call, ok := i.(*ssa.Call)
+			if !ok {
+				return
+			}
+			if f := staticCallee(call); f != nil && f.Name() == "parameters" && call.Referrers() != nil {
+				for _, rf := range *call.Referrers() {
+					if ex, ok := rf.(*ssa.Extract); ok && ex.Index == 0 {
+						seeds = append(seeds, ex)
+					}
+				}
+			}
+		})
+		if len(seeds) == 0 {
+			r.Bad("C15.R3", FuncID(encFn), "anchor", p.Pos(encFn.Pos()), "UNRESOLVED-ANCHOR: the encoder does not obtain Colors from flate.parameters")
+		} else {
+			t := indexTaint(c, seeds, fns)
+			n := 0
+			for _, fn := range fns {
+				if fn.Name() == "parameters" || fn.Name() == "predictorRowParams" {
+					continue
+				}
+				eachInstr(fn, func(_ *ssa.BasicBlock, _ int, i ssa.Instruction) {
+					bo, ok := i.(*ssa.BinOp)
+					if !ok || bo.Op != token.SUB || !isByte(bo.Type()) {
+						return
+					}
+					n++
+					construct := fmt.Sprintf("byte difference#%d", n)
+					if t[bo.Y] {
+						r.OK("C15.R3", FuncID(fn), construct, p.Pos(bo.Pos()), "the subtracted sample is addressed through the Colors value", true)
+					} else {
+						r.Bad("C15.R3", FuncID(fn), construct, p.Pos(bo.Pos()), "the encoder's TIFF differencing subtracts a sample whose position does not depend on Colors: the decoder adds the sample Colors positions to the left, so data with Colors > 1 does not decode to what was encoded")
+					}
+				})
+			}
+			if n == 0 {
+				r.Bad("C15.R3", FuncID(encFn), "byte difference", p.Pos(encFn.Pos()), "UNDECIDED: no byte subtraction found on the encoder's predictor path (TIFF differencing)")
+			}
+		}
+	}
+	// ---- decoder
+	decFn := p.Func("pkg/filter.applyHorDiff")
+	if decFn == nil || len(decFn.Params) < 2 {
+		r.Bad("C15.R3", "pkg/filter.applyHorDiff", "anchor", "", "UNRESOLVED-ANCHOR: the decoder's TIFF step was not found")
+		return
+	}
+	t := indexTaint(c, []ssa.Value{decFn.Params[1]}, []*ssa.Function{decFn})
+	n := 0
+	eachInstr(decFn, func(_ *ssa.BasicBlock, _ int, i ssa.Instruction) {
+		bo, ok := i.(*ssa.BinOp)
+		if !ok || bo.Op != token.ADD || !isByte(bo.Type()) {
+			return
+		}
+		n++
+		construct := fmt.Sprintf("byte sum#%d", n)
+		if t[bo.Y] {
+			r.OK("C15.R3", FuncID(decFn), construct, p.Pos(bo.Pos()), "the added sample is addressed through the colors parameter", true)
+		} else {
+			r.Bad("C15.R3", FuncID(decFn), construct, p.Pos(bo.Pos()), "the decoder's TIFF step adds a sample whose position does not depend on Colors")
+		}
+	})
+	if n == 0 {
+		r.Bad("C15.R3", FuncID(decFn), "byte sum", p.Pos(decFn.Pos()), "UNDECIDED: no byte addition found in the decoder's TIFF step")
 	}
 }
